@@ -15,7 +15,7 @@ struct Rng(u64);
 impl Rng { fn next(&mut self) -> u64 { self.0 ^= self.0 << 13; self.0 ^= self.0 >> 7; self.0 ^= self.0 << 17; self.0 } fn below(&mut self, n: u64) -> u64 { if n == 0 { 0 } else { self.next() % n } } }
 
 #[derive(Clone, Debug)]
-enum Op { Campaign, Tick(u64), Propose, ReadyAsync, ReadySync, Notify(u64), VoteReq(u64, u64, bool), Heartbeat(u64, u64), VoteResp(u64, bool) }
+enum Op { Campaign, Tick(u64), Propose, ReadyAsync, ReadySync, Notify(u64), VoteReq(u64, u64, bool), Heartbeat(u64, u64), VoteResp(u64, bool), ReqSnap, Snap(u64), Append }
 
 // --prop C20: only panics are reported (no library call may panic under contract-abiding use); default (C06): only the
 // persist-before-send checks are reported and a panicking case is abandoned
@@ -70,10 +70,32 @@ fn run(lone: bool, ops: &[Op]) -> Option<String> {
                     if !sent.contains(&(m.from, m.term, n.raft.state == StateRole::PreCandidate)) { return None; }   // nothing to answer yet
                     let _ = guard!("step", n.step(m));
                 }
+                Op::Append => {
+                    // the known leader replicates one entry of the current term right after this node's log and commits it
+                    let from = n.raft.leader_id; if from == 0 || from == 1 { return None; }
+                    if n.raft.term == 0 { return None; }   // no leader ever has term 0
+                    let (li, lt) = (n.raft.raft_log.last_index(), n.raft.raft_log.last_term());
+                    let mut e = Entry::default(); e.index = li + 1; e.term = n.raft.term;
+                    let mut m = Message::default(); m.set_msg_type(MessageType::MsgAppend); m.from = from; m.to = 1; m.term = n.raft.term; m.index = li; m.log_term = lt; m.commit = li + 1; m.set_entries(vec![e].into());
+                    let _ = guard!("step", n.step(m));
+                }
+                Op::ReqSnap => { let _ = guard!("request_snapshot", n.request_snapshot()); }
+                Op::Snap(back) => {
+                    // the known leader answers with a snapshot of a committed position of this node's own log
+                    let from = n.raft.leader_id; if from == 0 || from == 1 { return None; }
+                    let idx = n.raft.raft_log.committed.saturating_sub(*back); if idx == 0 { return None; }
+                    let t = match n.raft.raft_log.term(idx) { Ok(t) => t, Err(_) => return None };
+                    let mut snap = Snapshot::default(); snap.mut_metadata().index = idx; snap.mut_metadata().term = t;
+                    let mut cs = ConfState::default(); if lone { cs.set_voters(vec![1]); cs.set_learners(vec![2]); } else { cs.set_voters(vec![1, 2, 3]); }
+                    snap.mut_metadata().set_conf_state(cs);
+                    let mut m = Message::default(); m.set_msg_type(MessageType::MsgSnapshot); m.from = from; m.to = 1; m.term = n.raft.term; m.set_snapshot(snap);
+                    let _ = guard!("step", n.step(m));
+                }
                 Op::ReadyAsync | Op::ReadySync => {
                     if !guard!("has_ready", n.has_ready()) { return None; }
                     let mut rd = guard!("ready", n.ready());
                     let num = rd.number();
+                    if !rd.snapshot().is_empty() { let _ = store.wl().apply_snapshot(rd.snapshot().clone()); }
                     if !rd.entries().is_empty() { store.wl().append(rd.entries()).unwrap(); }
                     if let Some(hs) = rd.hs() { store.wl().set_hardstate(hs.clone()); cur_hs = (hs.term, hs.vote); }
                     // messages() may be sent right now
@@ -109,15 +131,29 @@ fn run(lone: bool, ops: &[Op]) -> Option<String> {
             }
             None
         })();
+        if std::env::var("MON_TRACE").is_ok() { eprintln!("  #{} {:?} -> state {:?} term {} leader {} last {} commit {} persisted {} snap_req {}", k, op, n.raft.state, n.raft.term, n.raft.leader_id, n.raft.raft_log.last_index(), n.raft.raft_log.committed, n.raft.raft_log.persisted, n.raft.pending_request_snapshot); }
         if let Some(w) = r { if w.is_empty() { return None; } return Some(format!("op #{} {:?}: {}", k, op, w)); }
     }
     None
 }
 
 fn gen(rng: &mut Rng) -> (bool, Vec<Op>) {
+    if rng.below(8) == 0 {
+        // directed family: the lone voter leads, grows its log, is deposed by a heartbeat of a higher term, asks for a
+        // snapshot, receives it, and then runs random persistence / timer steps
+        let mut ops = vec![Op::Campaign, Op::ReadySync];
+        for _ in 0..rng.below(3) { ops.push(Op::Propose); }
+        ops.push(Op::ReadySync); ops.push(Op::Heartbeat(0, 1 + rng.below(2))); ops.push(if rng.below(2) == 0 { Op::ReadySync } else { Op::ReadyAsync });
+        if rng.below(4) != 0 { ops.push(Op::Append); ops.push(Op::ReadySync); }
+        if rng.below(4) != 0 { ops.push(Op::ReqSnap); ops.push(if rng.below(2) == 0 { Op::ReadySync } else { Op::ReadyAsync }); }
+        ops.push(Op::Snap(rng.below(2)));
+        for _ in 0..(1 + rng.below(6)) { ops.push(match rng.below(6) { 0 | 1 => Op::ReadyAsync, 2 => Op::ReadySync, 3 => Op::Notify(rng.below(4)), 4 => Op::Tick(25), _ => Op::Campaign }); }
+        ops.push(Op::ReadyAsync);
+        return (true, ops);
+    }
     let n = 2 + rng.below(18); let mut ops = vec![];
-    for _ in 0..n { ops.push(match rng.below(14) { 0 | 1 => Op::Campaign, 2 => Op::Tick(1 + rng.below(25)), 3 => Op::Propose, 4..=6 => Op::ReadyAsync, 7 => Op::ReadySync, 8 | 9 => Op::Notify(rng.below(8)),
-        10 => Op::VoteReq(rng.below(2), 1 + rng.below(3), rng.below(3) == 0), 11 => Op::Heartbeat(rng.below(2), rng.below(3)), _ => Op::VoteResp(rng.below(2), rng.below(4) == 0) }); }
+    for _ in 0..n { ops.push(match rng.below(17) { 0 | 1 => Op::Campaign, 2 => Op::Tick(1 + rng.below(25)), 3 => Op::Propose, 4..=6 => Op::ReadyAsync, 7 => Op::ReadySync, 8 | 9 => Op::Notify(rng.below(8)),
+        10 => Op::VoteReq(rng.below(2), 1 + rng.below(3), rng.below(3) == 0), 11 => Op::Heartbeat(rng.below(2), rng.below(3)), 12 | 13 => Op::VoteResp(rng.below(2), rng.below(4) == 0), 14 => Op::ReqSnap, 15 => Op::Append, _ => Op::Snap(rng.below(2)) }); }
     (rng.below(2) == 0, ops)
 }
 
